@@ -50,6 +50,18 @@ make_decl(PLUGIN_DECL decl_def, Type::TypeMinor type_id);
 Type
 make_type(PLUGIN_TYPE type_def, Type::TypeMinor type_id);
 
+/**
+ * Helper function to guard an argument declared as object of this module.
+ * The static type of an expression is not enforced at run time (opaque values,
+ * declared type of functions), so the value handed over to the module is
+ * checked when it is evaluated. Any other argument is returned as is.
+ * @param arg the parsed argument, owned by the returned expression
+ * @param type_def the type definition of the argument
+ * @param type_id the identifier of the this module
+ */
+Expression *
+guard_object(Expression * arg, PLUGIN_TYPE type_def, Type::TypeMinor type_id);
+
 
 class PluginBase
 {
